@@ -261,6 +261,28 @@ func (g *G) stmtOf(c string, declsAllowed bool) []*Node {
 			ExprStmt(Call(Id("log"), Str("forin"), Id(cnt))),
 		}
 	case "switch":
+		if !deepNow(g) && g.coin(35, "loopswitch") {
+			// a switch on the loop variable inside a loop, followed by a tail statement: break leaves the switch,
+			// continue the iteration
+			i := g.fresh("i")
+			g.declare(i, kNum)
+			label := ""
+			if g.coin(40, "lslabel") {
+				label = g.fresh("L")
+			}
+			g.sc.loops = append(g.sc.loops, label)
+			g.sc.inLoop++
+			sw := g.switchStmt()
+			sw.C[0] = Id(i)
+			g.sc.inLoop--
+			g.sc.loops = g.sc.loops[:len(g.sc.loops)-1]
+			var loop *Node = N("for", N("var", NS("decl", i, Num(0))), Bin("<", Id(i), Num(float64(g.n(2, 4, "lsbound")))), &Node{K: "postupd", S: "++", C: []*Node{Id(i)}},
+				Block(sw, ExprStmt(Call(Id("log"), Str("loop-tail"), Id(i)))))
+			if label != "" {
+				loop = NS("label", label, loop)
+			}
+			return []*Node{loop}
+		}
 		return []*Node{g.switchStmt()}
 	case "try", "trythrow":
 		return []*Node{g.tryStmt(c == "trythrow")}
@@ -715,6 +737,8 @@ func (g *G) switchStmt() *Node {
 	return n
 }
 
+func deepNow(g *G) bool { return g.depth > 4 }
+
 func (g *G) caseBody() []*Node {
 	var out []*Node
 	if g.coin(85, "casehasbody") {
@@ -723,7 +747,16 @@ func (g *G) caseBody() []*Node {
 			out = append(out, g.stmt(false)...)
 		}
 	}
-	if g.coin(40, "casebreak") {
+	switch {
+	case g.sc.inLoop > 0 && g.coin(25, "casecontinue"):
+		// continue inside a switch clause belongs to the enclosing loop (12.7): the rest of the clause, the clauses
+		// it would fall into and the rest of the loop body are skipped
+		lbl := ""
+		if ls := nonEmpty(g.sc.loops); len(ls) > 0 && g.coin(40, "casecontlabel") {
+			lbl = pick(g, ls, "casecontl")
+		}
+		out = append(out, NS("continue", lbl), ExprStmt(Call(Id("log"), Str("after-continue"))))
+	case g.coin(40, "casebreak"):
 		out = append(out, NS("break", ""))
 	}
 	return out
